@@ -1121,12 +1121,26 @@ class Gen:
             if n.k == 'sze' and 'paren' not in n.flags:
                 c = n.ch[0]
                 ft = first_tok(c, P_UNARY)
-                if ft in ('-', '+', '++', '--') or (ft == '(' and c.k in ('idx', 'mem', 'post', 'call')):
+                if ft in ('-', '+', '++', '--') or (ft == '(' and c.k in ('idx', 'mem', 'post', 'call')) or '<' in ft:
                     n.flags = n.flags | {'paren'}
             if n.k == 'bin' and n.op == '*':
                 e = self.right_edge(n.ch[0], n.prec, lambda x: x.k == 'sze' and 'paren' not in x.flags)
                 if e is not None:
                     e.flags = e.flags | {'paren'}
+        if 'enumerator-angle-chain' in ex and self.cxx and n.k == 'bin' and n.op == '>':
+            # finding: `ENUMERATOR < x > ( … )` is taken for a template call
+            l = n.ch[0]
+            if l.k == 'bin' and l.op == '<' and l.prec >= n.prec:
+                x = l.ch[0]
+                while x.k == 'bin' and x.prec >= P_REL:
+                    x = x.ch[0]
+                if x.k == 'leaf' and 'enumerator' in x.flags and first_tok(n.ch[1], n.prec + 1) in (
+                        '(', 'static_cast', 'reinterpret_cast', 'const_cast'):
+                    n.op = '>='
+        if 'fcast-enum-deref' in ex and n.k == 'fcast' and n.op == 'E' and n.ch:
+            # finding: `E(*p)` is taken for a declaration (valueType gets a pointer level)
+            if first_tok(n.ch[0], P_ASSIGN) in ('*', '&'):
+                n.op = 'int'
         if n.k == 'bin' and n.op in ('*', '&', '&&', '<'):
             e = self.bare_new_at_right_edge(n.ch[0], n.prec)
             if e is not None:
